@@ -854,6 +854,7 @@ func checkNetworkControl(c *fw.Ctx) {
 
 func checkTransportUse(c *fw.Ctx) {
 	rule := "6 transport"
+	checkDialOverride(c)
 	if fn := mustFunc(c, rule, "fclient.(*destinationTripper).getTransport"); fn != nil {
 		// the TLS name of the transport is the step's TLS name (the literal may be built by a helper)
 		var names []string
@@ -1007,5 +1008,62 @@ func judge3(c *fw.Ctx, rule, construct, pos, detail string, ok, wrong bool) {
 		c.Fail(rule, construct, pos, detail)
 	default:
 		c.Undecided(rule, construct, detail+" (a rendering the rule does not know)")
+	}
+}
+
+
+// checkDialOverride (rule 4, continued): where a DNS cache is configured, getTransport replaces
+// the transport's DialContext by the cache's. The allow / deny lists given to the cache live in
+// the cache's own dialer, so every connection of such a transport has to be made by the cache:
+// a function literal installed instead that hands some addresses to another dialer (IP
+// literals, say) connects them without the cache's lists.
+func checkDialOverride(c *fw.Ctx) {
+	rule := "4 who-may-connect"
+	for _, fn := range c.P.SrcFuncs() {
+		if fn.Pkg == nil || !strings.HasSuffix(fn.Pkg.Pkg.Path(), "/fclient") {
+			continue
+		}
+		for _, b := range fn.Blocks {
+			for _, ins := range b.Instrs {
+				st, ok := ins.(*ssa.Store)
+				if !ok {
+					continue
+				}
+				fa, ok := st.Addr.(*ssa.FieldAddr)
+				if !ok {
+					continue
+				}
+				sty := derefStructOf(fa.X.Type())
+				if sty == nil || sty.Field(fa.Field).Name() != "DialContext" || !strings.HasSuffix(fw.Short(strings.TrimPrefix(fa.X.Type().String(), "*")), "net/http.Transport") {
+					continue
+				}
+				mc, isMC := st.Val.(*ssa.MakeClosure)
+				if !isMC {
+					continue
+				}
+				lit, _ := mc.Fn.(*ssa.Function)
+				if lit == nil || lit.Synthetic != "" || lit.Parent() == nil {
+					continue // a bound method value (dialer.DialContext, cache.DialContext)
+				}
+				var viaCache, other []string
+				for _, call := range fw.CallsTo(lit, true, func(n string) bool { return strings.HasSuffix(n, ".DialContext") || strings.HasSuffix(n, ".Dial") }) {
+					n := fw.CalleeName(call)
+					if strings.Contains(n, "DNSCache") {
+						viaCache = append(viaCache, n)
+					} else {
+						other = append(other, n+" at "+c.P.Pos(call.Pos()))
+					}
+				}
+				construct := fw.FuncName(fn) + ": a transport with a DNS cache dials only through the cache"
+				switch {
+				case len(viaCache) > 0 && len(other) > 0:
+					c.Fail(rule, construct, c.P.Pos(fw.InstrPos(st)), "the DialContext installed here hands some connections to "+strings.Join(other, ", ")+" instead of the DNS cache: the allow / deny lists configured on the cache do not apply to them")
+				case len(viaCache) > 0:
+					c.Ok(rule, construct, c.P.Pos(fw.InstrPos(st)), "")
+				default:
+					c.Undecided(rule, construct, "a function literal is installed as DialContext; which dialer it uses was not recognised")
+				}
+			}
+		}
 	}
 }
